@@ -746,3 +746,17 @@ PROPS["C05"]["facts"] = PROPS["C05"].get("facts", []) + ['bodies/ratelimiter:rat
 PROPS["C15"]["facts"] = PROPS["C15"].get("facts", []) + ['bodies/result:executionResult.Done', 'bodies/result:executionResult.Error', 'bodies/result:executionResult.IsDone', 'bodies/result:executionResult.Result']
 PROPS["C02"]["facts"] = PROPS["C02"].get("facts", []) + ['bodies/retry:ExceededError.Error', 'bodies/retry:ExceededError.Is', 'bodies/retry:ExceededError.Unwrap']
 PROPS["C12"]["facts"] = PROPS["C12"].get("facts", []) + ['bodies/policy:BaseAbortablePolicy.AbortIf', 'bodies/policy:BaseAbortablePolicy.AbortOnErrorTypes', 'bodies/policy:BaseAbortablePolicy.IsConfigured', 'bodies/policy:BaseFailurePolicy.HandleIf', 'bodies/util:.AppliesToAny', 'bodies/util:.ErrorTypesMatch', 'bodies/util:.errorAs']
+
+# entry points, constructors and getters between the caller and the modelled executors (FACTS body text)
+PROPS["C01"]["facts"] = PROPS["C01"].get("facts", []) + ['bodies/execution:.FailureResult', 'bodies/executor:.Get', 'bodies/executor:.GetAsync', 'bodies/executor:.GetWithExecution', 'bodies/executor:.GetWithExecutionAsync', 'bodies/executor:.NewExecutor', 'bodies/executor:.Run', 'bodies/executor:.RunAsync', 'bodies/executor:.RunWithExecution', 'bodies/executor:.RunWithExecutionAsync', 'bodies/executor:executor.Get', 'bodies/executor:executor.GetAsync', 'bodies/executor:executor.GetWithExecution', 'bodies/executor:executor.GetWithExecutionAsync', 'bodies/executor:executor.OnDone', 'bodies/executor:executor.OnFailure', 'bodies/executor:executor.OnSuccess', 'bodies/executor:executor.Run', 'bodies/executor:executor.RunAsync', 'bodies/executor:executor.RunWithExecution', 'bodies/executor:executor.RunWithExecutionAsync', 'bodies/executor:executor.WithContext']
+PROPS["C02"]["facts"] = PROPS["C02"].get("facts", []) + ['bodies/retry:.WithDefaults']
+PROPS["C03"]["facts"] = PROPS["C03"].get("facts", []) + ['bodies/circuitbreakerbuilder:.WithDefaults']
+PROPS["C05"]["facts"] = PROPS["C05"].get("facts", []) + ['bodies/ratelimiter:rateLimiter.ToExecutor', 'bodies/util:.NewClock', 'bodies/util:.NewStopwatch', 'bodies/util:wallClock.CurrentUnixNano', 'bodies/util:wallClockStopwatch.ElapsedTime', 'bodies/util:wallClockStopwatch.Reset']
+PROPS["C06"]["facts"] = PROPS["C06"].get("facts", []) + ['bodies/bulkhead:bulkhead.ToExecutor']
+PROPS["C07"]["facts"] = PROPS["C07"].get("facts", []) + ['bodies/timeout:timeout.ToExecutor']
+PROPS["C09"]["facts"] = PROPS["C09"].get("facts", []) + ['bodies/hedge:.WithDelay', 'bodies/hedge:.WithDelayFunc']
+PROPS["C10"]["facts"] = PROPS["C10"].get("facts", []) + ['bodies/fallback:.WithError', 'bodies/fallback:.WithFunc', 'bodies/fallback:.WithResult']
+PROPS["C11"]["facts"] = PROPS["C11"].get("facts", []) + ['bodies/cache:cachePolicy.ToExecutor']
+PROPS["C16"]["facts"] = PROPS["C16"].get("facts", []) + ['bodies/events:.newExecutionDoneEvent']
+PROPS["C17"]["facts"] = PROPS["C17"].get("facts", []) + ['bodies/execution:execution.AttemptStartTime', 'bodies/execution:execution.Canceled', 'bodies/execution:execution.Context', 'bodies/execution:execution.ElapsedAttemptTime', 'bodies/execution:execution.ElapsedTime', 'bodies/execution:execution.StartTime']
+PROPS["C18"]["facts"] = PROPS["C18"].get("facts", []) + ['bodies/client:.NewUnaryClientInterceptor', 'bodies/http:.NewRequest', 'bodies/http:.NewRequestWithExecutor', 'bodies/http:.NewRoundTripper', 'bodies/http:.NewRoundTripperWithExecutor', 'bodies/server:.NewServerInHandle', 'bodies/server:.NewUnaryServerInterceptor']
